@@ -1,6 +1,10 @@
 import NxProofs.Schema
 import NxProofs.Rmc
 import NxProofs.RmcClient
+import NxProofs.Channel
+import NxProofs.Cipher
+import NxProofs.Negotiation
+import NxModel.Nex.C14Wire
 /-!
 # C14 — values survive a client → server → client round trip through any generated method
 
@@ -10,6 +14,14 @@ is the message the peer's RMC layer receives. Statements only; proofs in `NxProo
 Several calls in flight at once on one connection: which response a caller is handed is decided by the call-matching
 machine of `NxModel/Nex/RmcClient.lean` (C10's model, `NxProofs/RmcClient.lean`); `rpc_concurrent_own_result`
 composes it with the response leg.
+
+Over the real transport: an RMC message is one application message of the PRUDP channel of C01
+(`NxModel/Prudp/Channel.lean`: fragmentation, position-indexed cipher, sliding window; the network is ANY list of arrivals —
+loss, duplication, reordering). `rpc_request_over_faulty_network` / `rpc_response_over_faulty_network` compose the channel's
+safety invariant with the two legs: whatever the network did, the k-th message the receiving RMC layer is handed is the k-th
+message sent, so it decodes to the visible values of the k-th call — for every call of a connection, not only the first.
+Which codec configuration (structure headers) each end uses follows from the minor version its endpoint reports after the
+handshake (`NxModel/Nex/C14Wire.lean`); `both_ends_same_codec` and `negotiated_minor_is_handshake` tie that to C06's L1 lemmas.
 
 `forward_compat` needs "revisions ascending" — for every `nex.version` the number the generated `max_version`
 returns bounds every reachable `revision` block (`Items.revAscending`, a kernel-checked generated obligation per
@@ -144,6 +156,113 @@ theorem struct_header_auto (cfg : Cfg) (minor : Nat) :
     ∧ (rmcClientCfg cfg minor).nexVersion = cfg.nexVersion ∧ (rmcClientCfg cfg minor).pidSize = cfg.pidSize :=
   ⟨rmcClientCfg_header cfg minor, rmcClientCfg_keep cfg minor, (rmcClientCfg_other cfg minor).1, (rmcClientCfg_other cfg minor).2⟩
 
+
+/-! ## over the real PRUDP leg -/
+
+/-- what the receiver of a channel has delivered so far, position by position, is what was sent -/
+theorem channel_delivers_what_was_sent (c : Chan.Cipher) (hc : Chan.CipherOk c) (size : Nat) (hsz : 1 ≤ size)
+    (start : Nat) (hs : start < 65536) (ops : List Chan.Op) (hok : Chan.runOk c size (Chan.init start) ops = true)
+    (k : Nat) (got : Bytes) (hgot : (Chan.run c size (Chan.init start) ops).r.core.reasm.out[k]? = some got) :
+    (Chan.run c size (Chan.init start) ops).s.sent[k]? = some got := by
+  obtain ⟨hS, hR⟩ := Chan.inv_run c hc size hsz start ops (Chan.init start) (Chan.inv_init c start hs).1 (Chan.inv_init c start hs).2 hok
+  have hlog : (Chan.run c size (Chan.init start) ops).s.log =
+      (Chan.run c size (Chan.init start) ops).s.log.take (Chan.run c size (Chan.init start) ops).r.nrel ++
+      (Chan.run c size (Chan.init start) ops).s.log.drop (Chan.run c size (Chan.init start) ops).r.nrel := (List.take_append_drop _ _).symm
+  have h1 := hS.cons
+  rw [hlog, Chan.consume_append, ← hR.core] at h1
+  have h2 := Chan.out_prefix c ((Chan.run c size (Chan.init start) ops).s.log.drop (Chan.run c size (Chan.init start) ops).r.nrel)
+    (Chan.run c size (Chan.init start) ops).r.core
+  rw [h1] at h2
+  obtain ⟨t, ht⟩ := h2
+  have ht' : (Chan.run c size (Chan.init start) ops).r.core.reasm.out ++ t = (Chan.run c size (Chan.init start) ops).s.sent := ht
+  rw [← ht']
+  have hk : k < (Chan.run c size (Chan.init start) ops).r.core.reasm.out.length := by
+    rcases Nat.lt_or_ge k (Chan.run c size (Chan.init start) ops).r.core.reasm.out.length with h | h
+    · exact h
+    · rw [List.getElem?_eq_none h] at hgot; cases hgot
+  rw [List.getElem?_append_left hk]; exact hgot
+
+/-- **request leg over a misbehaving network.** `ops` is ANY history of one direction of a PRUDP connection (sends, pings,
+    arrivals of any emitted packet in any order, any number of times, or never — within the half window, C01). If the
+    k-th message the client's RMC layer sent is the framed request of a generated-client call, then the k-th message the
+    server's RMC layer is handed — if it has been handed k+1 messages — parses to that request and the generated server
+    decodes the visible arguments, with the call's protocol, method and call id. Holds for every k: earlier faults on the
+    connection do not matter. (The cipher is any position-indexed cipher, RC4 included: `C01.rc4_like_ok`.) -/
+theorem rpc_request_over_faulty_network (c : Chan.Cipher) (hc : Chan.CipherOk c) (size : Nat) (hsz : 1 ≤ size)
+    (start : Nat) (hs : start < 65536) (ops : List Chan.Op) (hok : Chan.runOk c size (Chan.init start) ops = true)
+    {env : Env} {cfg : Cfg} {fuel : Nat} {p : ProtoDef} {m : MethodDef} {args : List Val} {pi mi : Nat} {body : Bytes}
+    (h : clientRequest env cfg fuel p m args = .ok (pi, mi, body)) (callId : Nat)
+    (hwf : (Rmc.Spec.request pi callId mi body).WF) (wire : Bytes)
+    (henc : Rmc.encode (Rmc.ofSpec (.request pi callId mi body)) = .ok wire)
+    (k : Nat) (hsent : (Chan.run c size (Chan.init start) ops).s.sent[k]? = some wire)
+    (got : Bytes) (hgot : (Chan.run c size (Chan.init start) ops).r.core.reasm.out[k]? = some got) :
+    ∃ msg, Rmc.decode got = .ok msg ∧ msg.mode = 0 ∧ msg.protocol = p.id ∧ msg.method = some m.id ∧ msg.callId = callId
+      ∧ serverRequest env cfg fuel m msg.body = .ok (visArgs env cfg fuel m.request args) := by
+  have hd := channel_delivers_what_was_sent c hc size hsz start hs ops hok k got hgot
+  rw [hsent] at hd
+  cases hd
+  obtain ⟨wire', msg, e1, e2, r⟩ := rpc_roundtrip_request h callId hwf
+  rw [henc] at e1
+  cases e1
+  exact ⟨msg, e2, r⟩
+
+/-- **response leg over a misbehaving network** (the other direction of the connection is another channel) -/
+theorem rpc_response_over_faulty_network (c : Chan.Cipher) (hc : Chan.CipherOk c) (size : Nat) (hsz : 1 ≤ size)
+    (start : Nat) (hs : start < 65536) (ops : List Chan.Op) (hok : Chan.runOk c size (Chan.init start) ops = true)
+    {env : Env} {cfg : Cfg} {fuel : Nat} {m : MethodDef} {res : List Val} {body : Bytes}
+    (h : serverResponse env cfg fuel m res = .ok body) (protocol callId : Nat)
+    (hwf : (Rmc.Spec.success protocol callId m.id body).WF) (wire : Bytes)
+    (henc : Rmc.encode (Rmc.ofSpec (.success protocol callId m.id body)) = .ok wire)
+    (k : Nat) (hsent : (Chan.run c size (Chan.init start) ops).s.sent[k]? = some wire)
+    (got : Bytes) (hgot : (Chan.run c size (Chan.init start) ops).r.core.reasm.out[k]? = some got) :
+    ∃ msg, Rmc.decode got = .ok msg ∧ msg.mode = 1 ∧ msg.callId = callId ∧ msg.error = -1
+      ∧ clientResponse env cfg fuel m msg.body = .ok (visArgs env cfg fuel m.response res) := by
+  have hd := channel_delivers_what_was_sent c hc size hsz start hs ops hok k got hgot
+  rw [hsent] at hd
+  cases hd
+  obtain ⟨wire', msg, e1, e2, r⟩ := rpc_roundtrip_response h protocol callId hwf
+  rw [henc] at e1
+  cases e1
+  exact ⟨msg, e2, r⟩
+
+/-- both ends of a connection that were given equal settings encode and decode with the same configuration, whatever
+    minor versions were configured; on PRUDP v0 (no option fields: both ends report 0) that configuration is the
+    settings' own; in general each end has structure headers iff its settings say so or the negotiated minor version is ≥ 3 -/
+theorem both_ends_same_codec (v0 : Bool) (cfg cfgC cfgS : Cfg) (minorC minorS : Nat) :
+    (C14Wire.endCfgs v0 cfg cfg minorC minorS).1 = (C14Wire.endCfgs v0 cfg cfg minorC minorS).2
+    ∧ (v0 = true → C14Wire.endCfgs v0 cfgC cfgS minorC minorS = (cfgC, cfgS))
+    ∧ (C14Wire.endCfgs v0 cfgC cfgS minorC minorS).1.structHeader
+        = (cfgC.structHeader || decide (C14Wire.negotiatedMinor v0 minorC minorS ≥ 3))
+    ∧ (C14Wire.endCfgs v0 cfgC cfgS minorC minorS).2.structHeader
+        = (cfgS.structHeader || decide (C14Wire.negotiatedMinor v0 minorC minorS ≥ 3)) := by
+  refine ⟨rfl, ?_, ?_, ?_⟩
+  · intro hv; subst hv; simp [C14Wire.endCfgs, C14Wire.negotiatedMinor, rmcClientCfg]
+  · by_cases h3 : C14Wire.negotiatedMinor v0 minorC minorS ≥ 3 <;> simp [C14Wire.endCfgs, rmcClientCfg, h3]
+  · by_cases h3 : C14Wire.negotiatedMinor v0 minorC minorS ≥ 3 <;> simp [C14Wire.endCfgs, rmcClientCfg, h3]
+
+/-- `negotiatedMinor false` is what the L1 handshake model (C06's lemmas) makes both endpoints report: the connection
+    the server registers for the client's CONNECT and the client after its SYN/ACK both hold the meet -/
+theorem negotiated_minor_is_handshake (envS envC : L1.Env) (now now' : L1.Time) (rnd : L1.Rnd) (up : Bool)
+    (s : L1.ServerStream) (c : L1.Conn) (syn ack con : Prudp.Packet) (caddr to : L1.Addr) (d : Bytes) (hn : Nat) (cs : L1.Conn)
+    (hsyn : (syn.minorVersion, syn.maxSubstreamId, syn.supportedFunctions) = c.params)
+    (hack : (s.processSyn envS syn caddr).outs = [.emit to ack d])
+    (hpend : L1.ackLookup (L1.ackKeyOf ack) c.ackEvents = some hn)
+    (hacc : (c.processSyn envC now ack).err = none)
+    (hcon : (con.minorVersion, con.maxSubstreamId, con.supportedFunctions) = (c.processSyn envC now ack).c.params)
+    (hnew : L1.clientLookup (caddr, con.sourcePort, con.sourceType) s.clients = none)
+    (hreg : L1.clientLookup (caddr, con.sourcePort, con.sourceType) (s.processConnect envS now' rnd up con caddr).s.clients = some cs)
+    (cfg : Cfg) :
+    cs.minorVer = C14Wire.negotiatedMinor false c.minorVer s.minorVer
+    ∧ (c.processSyn envC now ack).c.minorVer = C14Wire.negotiatedMinor false c.minorVer s.minorVer
+    ∧ rmcClientCfg cfg cs.minorVer = rmcClientCfg cfg (c.processSyn envC now ack).c.minorVer := by
+  obtain ⟨_, a2, _⟩ := L1.server_synack_is_meet envS s syn caddr to ack d hack
+  obtain ⟨b1, _⟩ := L1.client_adopts_offer envC now c ack hn hpend hacc
+  obtain ⟨c1, _⟩ := L1.server_connect_params envS now' rnd up s con caddr hnew cs hreg
+  simp only [L1.Conn.params, Prod.mk.injEq] at hsyn b1 c1 hcon
+  have e1 : (c.processSyn envC now ack).c.minorVer = min s.minorVer c.minorVer := by rw [b1.1, a2, hsyn.1]
+  have e2 : cs.minorVer = min s.minorVer c.minorVer := by rw [c1.1, hcon.1, e1]
+  refine ⟨by simp [C14Wire.negotiatedMinor, e2], by simp [C14Wire.negotiatedMinor, e1], by rw [e1, e2]⟩
+
 /-! non-vacuity -/
 example : Ex.conn.items.revAscending = true := by decide
 example : lookup Ex.env 82 = some Ex.conn ∧ Ex.conn.parent = none := by decide
@@ -168,5 +287,14 @@ example : (Rmc.Spec.request 21 1 1 [7, 0, 0, 0]).WF := by decide
 example : dispatch Ex.proto (fun _ => true) 2 = .notImplemented ∧ dispatch Ex.proto (fun _ => true) 1 = .run Ex.meth
     ∧ dispatch Ex.proto (fun _ => false) 1 = .notImplemented ∧ dispatch Ex.proto (fun _ => true) 3 = .notImplemented := by decide
 example : (rmcClientCfg Ex.cfgOld 3).structHeader = true ∧ (rmcClientCfg Ex.cfgOld 2).structHeader = false := by decide
+
+-- a request of 5 bytes, fragment size 2, id wrap: the second fragment arrives twice, the last one first — delivered once, intact
+example : let ops := [Chan.Op.send [1, 2, 3, 4, 5], .arrive 1, .arrive 1, .arrive 2, .arrive 0, .arrive 2]
+    Chan.runOk Chan.idCipher 2 (Chan.init 65535) ops = true ∧
+      (Chan.run Chan.idCipher 2 (Chan.init 65535) ops).r.core.reasm.out = [[1, 2, 3, 4, 5]] := by decide
+-- 3ds / friends (v0): server configured with minor version 4, both ends run without structure headers; default (v1): with
+example : C14Wire.endCfgs true Ex.cfgOld Ex.cfgOld 4 4 = (Ex.cfgOld, Ex.cfgOld)
+    ∧ (C14Wire.endCfgs false Ex.cfgOld Ex.cfgOld 4 4).2.structHeader = true
+    ∧ (C14Wire.endCfgs false Ex.cfgOld Ex.cfgOld 4 2).1.structHeader = false := by decide
 
 end Nx.C14
